@@ -42,6 +42,15 @@ br_ecdsa_i15_bits2int(uint16_t *x,
 	}
 	br_i15_zero(x, ebitlen);
 	br_i15_decode(x, src, len);
+
+	/*
+	 * br_i15_decode() announces the true bit length of the value,
+	 * which is secret when the source is a nonce. Announce the
+	 * (public) length of the source instead, so that the shift
+	 * processes a fixed number of words.
+	 */
+	hbitlen = (uint32_t)len << 3;
+	x[0] = (uint16_t)(hbitlen + (hbitlen / 15));
 	br_i15_rshift(x, sc);
 	x[0] = ebitlen;
 }
